@@ -8,4 +8,7 @@ EXPLANATION = ""
 
 
 def build(tier):
-    return c13.build(tier)
+    us = c13.build(tier)
+    for u in us:
+        u.obligations = [o for o in u.obligations if o.prop == "C13"]
+    return us
